@@ -592,4 +592,26 @@ theorem run_startTag (i : Nat) (hls : F.ls = i) (en : Bool) (cq : UInt8) (hq : c
   · simp at hspec
 
 end
+
+/-- **The break, register by register** (`break_on_end_of_input` + `adjust_for_next_input` with `Align`):
+when more input may come, the end-of-input step of a tag state consumes exactly the bytes before the
+`<` (`lexeme_start`), keeps the state and the non-positional registers, and re-bases every positional
+register — cursor, token-part start, name / attribute outlines of the tag token, the open attribute —
+by `lexeme_start`; the sink and the simulator are untouched. -/
+theorem eofStep_break (env : Env κ) (inp : Bytes) (c : Common) (l : LexRegs) (x : Ctx κ)
+    (hl : c.isLast = false) (h1 : l.lexemeStart + 1 ≤ c.nextPos) :
+    eofStep env inp c l x =
+      (⟨{ c with nextPos := c.nextPos - 1 - l.lexemeStart },
+        .lexer { l with tokenPartStart := alignNat l.tokenPartStart l.lexemeStart,
+                        curTag := l.curTag.map (·.align l.lexemeStart),
+                        curNonTag := l.curNonTag.map (·.align l.lexemeStart),
+                        curAttr := l.curAttr.map (·.align l.lexemeStart),
+                        lexemeStart := 0 }, x⟩,
+       some (.endOfInput l.lexemeStart)) := by
+  unfold eofStep
+  rw [if_neg (by simp [hl])]
+  unfold breakOnEndOfInput
+  simp only [consumedByteCount, hl, Bool.false_eq_true, if_false, adjustForNextInput]
+  rw [if_neg (by omega)]
+
 end LolHtml.Model.TagStates
